@@ -60,6 +60,29 @@ def state_from_model(m):
 PAYLOAD_POOL = ["", "1", "20.5", "abc", "inf", "nan", "150", "-3", "55", "2.2.0", "2.0.0", "1.5.1", "garbage", "a;b", "7"]
 
 
+def dispatched_fields(unit, ver, k, t, c):
+    import re
+    m = re.search(r"\.handle_(i_[a-z0-9_]+|presentation|set|req|internal|stream)\b", unit)
+    if not m:
+        return k, t, c
+    h = m.group(1)
+    if h.startswith("i_"):
+        native.import_repo()
+        from aiomysensors.model.protocol import get_protocol
+        try:
+            t = int(getattr(get_protocol(ver or "2.2").Internal, h.upper()))
+        except AttributeError:
+            return k, t, c
+        return 3, t, (c if t in (3, 4) else 255)
+    k = {"presentation": 0, "set": 1, "req": 2, "internal": 3, "stream": 4}[h]
+    mt = re.search(r"\[type=(\d+)\]", unit)
+    if mt:
+        t = int(mt.group(1))
+    if k in (3, 4) and t not in (3, 4):
+        c = 255
+    return k, t, c
+
+
 def replay(prop, world, ob):
     """Replay a counter-model: same pre-state into the real gateway and the reference, one received line."""
     m = ob.get("model") or {}
@@ -74,6 +97,9 @@ def replay(prop, world, ob):
     if all(isinstance(x, int) for x in fields):
         n, c, k, a, t = fields
         a = a if a in (0, 1) else 0
+        # a leaf handler is a unit of its own: the fields the dispatch has already fixed are not part of its path condition, so
+        # the model leaves them arbitrary - they are read off the handler's name
+        k, t, c = dispatched_fields(ob["unit"], uver, k, t, c)
         for ver in versions:
             # under 1.4 rules the version may be unknown; otherwise it is the unit's version
             for known in ([ver] if ver != "1.4" else [mver if (mver and rm.select(mver) == (1, 4)) else None, "1.4"]):
@@ -131,6 +157,9 @@ def scripted(ver):
         pres + [("recv", wake), ("send", 1, 1, 1, 0, 2, "1", True), ("send", 1, 1, 1, 0, 2, "0", True), ("recv", f"1;255;0;0;17;{v}"), ("recv", "1;1;0;0;6;t"),
                 ("recv", wake), ("recv", wake)],
         pres + [("recv", wake), ("recv", "1;1;2;0;0;"), ("recv", wake)],
+        # a heartbeat response between parking and the wake signal: the wake signal itself up to 2.1, no wake from 2.2 on
+        pres + [("recv", wake), ("send", 1, 1, 1, 0, 2, "1", True), ("recv", "1;255;3;0;22;5"), ("recv", wake)],
+        pres + [("recv", "1;255;3;0;22;5"), ("send", 1, 1, 1, 0, 2, "1", True), ("recv", "1;255;3;0;22;6")],
         pres + [("recv", wake), ("send", 1, 1, 1, 0, 2, "1", True), ("send", 1, 1, 2, 0, 2, "", True), ("recv", wake)],
         [("recv", "5;1;1;0;0;1"), ("recv", "5;255;3;0;0;50"), ("recv", "5;255;0;0;17;x"), ("recv", "5;9;1;0;0;1"), ("recv", "5;9;2;0;0;")],
         [("recv", "255;255;3;0;3;"), ("recv", "255;255;3;0;3;"), ("recv", "2;255;3;0;6;"), ("recv", "2;255;3;0;1;")],
